@@ -101,12 +101,114 @@ def local_new_sites(prog, f, scalar):
     return [(loc, v, why) for loc, (v, why) in res.items()]
 
 
+GROW = ('push_back', 'emplace_back')
+SHRINK_OR_OTHER = ('pop_back', 'clear', 'resize', 'erase', 'insert', 'assign', 'swap', 'emplace', 'shrink_to_fit', 'operator=')
+
+
+def counter_in_step(prog, B, counter, arr):
+    """Is `counter == arr.size() - 1` kept by every function of the program?  The store grows both together (register_var /
+    register_vec: counter++ and arr.push_back as statements of one block).  Returns (True, None), (False, offender) when a
+    function changes one without the other, (None, why) when a write is of a form not recognised."""
+    def is_member(n, m):
+        n = strip(n, casts=True)
+        return isinstance(n, dict) and n.get('k') == 'member' and n.get('n') == m and n.get('rec') == B
+    for f in prog.functions:
+        if f.body is None or f.get('ctor') and f.get('rec') == B:
+            continue
+        if not any(n.get('k') == 'member' and n.get('n') in (counter, arr) and n.get('rec') == B for n in walk(f.body)):
+            continue
+        for blk in [n for n in walk(f.body) if n.get('k') == 'block']:
+            incs = grows = 0
+            for st in blk.get('s') or []:
+                st0 = strip(st, casts=True) if isinstance(st, dict) else st
+                if not isinstance(st0, dict):
+                    continue
+                if st0.get('k') == 'un' and st0.get('op') == '++' and is_member(st0.get('e'), counter):
+                    incs += 1
+                elif st0.get('k') == 'call' and st0.get('n') in GROW and st0.get('obj') is not None and is_member(st0['obj'], arr):
+                    grows += 1
+            if incs != grows:
+                return False, '%s (%s) changes %s %d time(s) and grows %s %d time(s) in one block' % (f.q.split('(')[0], f.where, counter, incs, arr, grows)
+        # any other write to the counter or mutation of the array
+        for n in walk(f.body):
+            if n.get('k') == 'bin' and n.get('op', '').endswith('=') and n['op'] not in ('==', '!=', '<=', '>=') and is_member(n.get('a'), counter):
+                return None, '%s assigns %s (%s)' % (f.q.split('(')[0], counter, f.where)
+            if n.get('k') == 'un' and n.get('op') == '--' and is_member(n.get('e'), counter):
+                return False, '%s (%s) decrements %s' % (f.q.split('(')[0], f.where, counter)
+            if n.get('k') == 'call' and n.get('n') in SHRINK_OR_OTHER and n.get('obj') is not None and is_member(n['obj'], arr):
+                return None, '%s calls %s.%s (%s)' % (f.q.split('(')[0], arr, n['n'], f.where)
+    return True, None
+
+
+def terms_with_loops(events, stack=()):
+    """(term, enclosing loop events innermost last) for every term of every event, loops kept as a hierarchy"""
+    for e in events:
+        if e[0] in ('loop', 'branch'):
+            st2 = stack + (e,) if e[0] == 'loop' else stack
+            if e[0] == 'loop' and e[1][0] is not None:
+                yield e[1][0], st2
+            for k_, c_, sub in e[1][1]:
+                for c in c_:
+                    yield c, st2
+                for x in terms_with_loops(sub, st2):
+                    yield x
+        else:
+            for x in e[1:]:
+                if isinstance(x, tuple):
+                    yield x, stack
+
+
+def counter_bound(idx, stack, arr):
+    """idx = loopvar(init, @loop:i) of an enclosing counting loop: ('size', None) when the loop condition bounds it by arr.size(),
+    ('member', M) when it is bounded by i <= M / i < M + 1 with M a data member, else None"""
+    if not (idx[0] == 'call' and idx[1] == 'loopvar' and idx[2][1][0] == 'sym' and idx[2][1][1].startswith('@loop:')):
+        return None
+    name = idx[2][1][1][len('@loop:'):]
+    init = idx[2][0]
+    if not (init[0] == 'num' and init[1] >= 0):
+        return None
+    for lp in reversed(stack):
+        cond = lp[1][0]
+        if cond is None or idx not in list(terms.subterms(cond)):
+            continue
+        # the counter only moves up by one, on every path that goes round again
+        for kind, conds, evs in lp[1][1]:
+            if kind == 'exit':
+                continue
+            steps = [x for x in evs if x[0] == 'delta' and x[1][0] == name]
+            if kind in ('ret', 'break') and not steps:
+                continue
+            if len(steps) != 1 or steps[0][1][1] != ('add', (idx, terms.num(1))):
+                return None
+            # the array is not resized inside the loop
+            for x in api_flat(evs):
+                if x[0] in ('call', 'libcall') and any(isinstance(y, tuple) and ('sym', arr) in list(terms.subterms(y)) for y in x[1:] if isinstance(y, tuple)):
+                    pass
+        cs = [cond]
+        while cs:
+            c = cs.pop()
+            if c[0] == 'and':
+                cs.extend(c[1] if isinstance(c[1], (list, tuple)) and c[1] and isinstance(c[1][0], tuple) else c[1:])
+                continue
+            if c[0] == 'cmp' and c[2] == idx:
+                if c[1] == '<' and c[3] == ('size', ('sym', arr)):
+                    return ('size', None)
+                if c[1] == '<=' and c[3][0] == 'sym' and '.' not in c[3][1] and not c[3][1].startswith(('@', 'global:', 'const:', 'static:')):
+                    return ('member', c[3][1])
+                if c[1] == '<' and c[3][0] == 'add' and len(c[3][1]) == 2 and terms.num(1) in c[3][1]:
+                    m = [x for x in c[3][1] if x != terms.num(1)]
+                    if m and m[0][0] == 'sym' and '.' not in m[0][1] and not m[0][1].startswith(('@', 'global:', 'const:', 'static:')):
+                        return ('member', m[0][1])
+        return None
+    return None
+
+
 def run(ctx, prog):
     ctx.rule('C19.O1', 'ownership of catalogue objects: every object allocated by get_list_mms is, on every normally returning path of init_mms / masa_printid, deleted or installed in _master_map exactly once; '
              'installing under an existing key deletes the previous object first; ~MasterMS deletes every mapped object')
     ctx.rule('C19.O2', 'delete is applied only at the enumerated sites (init_mms, masa_printid, ~MasterMS), to vector elements / map values, never twice on a path')
     ctx.rule('C19.O3', 'every scalar data member of manufactured_solution that is read is assigned by its constructor (num_vars, num_vec, dummy)')
-    ctx.rule('C19.O4', 'vararr / vecarr are subscripted only by the mapped value of an iterator of the corresponding map (find result checked against end(), or a whole-map loop)')
+    ctx.rule('C19.O4', 'vararr / vecarr are subscripted only by the mapped value of an iterator of the corresponding map (find result checked against end(), or a whole-map loop), or by a counter the loop condition keeps below the array size (directly, or through a member every function keeps equal to size-1)')
     ctx.rule('C19.O5', "C boundary: an output buffer is never read before it is written; masa_set_array reads exactly [0,*n); masa_get_array writes array[i] for i in [0,size)")
     ctx.rule('C19.O6', 'every element loop over a member vector in code reachable from an evaluator or init_var is bounded by the size of the container it indexes (or by a dominating equal-size guard)')
     ctx.explanation = ('Structural necessary conditions at the enumerated allocation, initialisation and indexing sites. The dynamic claim (sanitizers over all API histories) is not decided; '
@@ -207,6 +309,7 @@ def run(ctx, prog):
         from .c11 import mapped_index
         from ..ownership import lookup_fact
         n_idx = 0
+        in_step = {}
         for f in prog.methods_of(B):
             if f.get('ctor') or f.get('dtor') or f.get('virt') and f.n.startswith('eval_'):
                 continue
@@ -221,21 +324,34 @@ def run(ctx, prog):
             except RecursionError:
                 continue
             bad = []
+            undecided = []
             seen_here = 0
             for o in list(outs) + [p_ for p_ in E.trace.exit_paths if p_ not in outs]:
-                ts = [o.ret] if o.ret is not None else []
-                for e in api_flat(o.events):
-                    for x in e[1:]:
-                        if isinstance(x, tuple):
-                            ts.append(x)
-                ts += list(o.conds) + list(o.mem.values())
-                for t in ts:
+                ts = [(o.ret, ())] if o.ret is not None else []
+                ts += list(terms_with_loops(o.events))
+                ts += [(c_, ()) for c_ in o.conds] + [(v_, ()) for v_ in o.mem.values()]
+                for t, stack in ts:
                     for st in (terms.subterms(t) if isinstance(t, tuple) and t and isinstance(t[0], str) else ()):
                         if st[0] == 'elem' and st[1][0] == 'sym' and st[1][1] in ('vararr', 'vecarr'):
                             seen_here += 1
                             mp = 'varmap' if st[1][1] == 'vararr' else 'vecmap'
                             idx = st[2]
                             if mapped_index(idx, mp, loopvar=True):
+                                continue
+                            cb = counter_bound(idx, stack, st[1][1])
+                            if cb is not None and cb[0] == 'size':
+                                continue        # 0 <= i < arr.size() by the loop condition
+                            if cb is not None and cb[0] == 'member':
+                                key_ = (cb[1], st[1][1])
+                                if key_ not in in_step:
+                                    in_step[key_] = counter_in_step(prog, B, cb[1], st[1][1])
+                                ok_, why_ = in_step[key_]
+                                if ok_:
+                                    continue    # i <= counter == arr.size() - 1, an invariant of every function that touches either
+                                if ok_ is None:
+                                    undecided.append('%s[%s]: bounded by %s, whose relation to %s.size() is not decided: %s' % (st[1][1], terms.fmt(idx)[:30], cb[1], st[1][1], why_))
+                                    continue
+                                bad.append('%s[%s]: the index runs up to %s, but %s is not kept equal to %s.size()-1: %s' % (st[1][1], terms.fmt(idx)[:30], cb[1], cb[1], st[1][1], why_))
                                 continue
                             keyt = None
                             if idx[0] == 'field' and idx[2] == 'second' and idx[1][0] == 'call' and idx[1][1] in ('op:operator*', 'op:operator->') and len(idx[1][2]) == 1:
@@ -248,8 +364,9 @@ def run(ctx, prog):
                                 bad.append('%s[%s.find(%s)->second] on a path that has not established that the name is registered' % (st[1][1], mp, terms.fmt(keyt)[:20]))
             if seen_here:
                 n_idx += 1
-                ctx.ob('C19.O4', '%s|%s|%s' % (f.n, f.sig, sc), not bad, f.where, '%s: %s' % (f.n, '; '.join(sorted(set(bad))[:2])),
-                       sample='%s: every vararr/vecarr element is selected by a checked map iterator' % f.n)
+                ctx.ob('C19.O4', '%s|%s|%s' % (f.n, f.sig, sc), (not bad) if (bad or not undecided) else None, f.where,
+                       '%s: %s' % (f.n, '; '.join(sorted(set(bad or undecided))[:2])),
+                       sample='%s: every vararr/vecarr element is selected by a checked map iterator or a counter bounded by the array size' % f.n)
         ctx.floor('store_methods_indexing_the_arrays<%s>' % scalar, n_idx, 2)
     # ---------------- O5 (C boundary) - the wrappers are <double> only
     wr = {f.n: f for f in prog.fn_by_tu.get('cmasa.cpp', []) if f.get('externc')}
